@@ -10,10 +10,11 @@ Inductive robs :=
 | OOther (code : Z).
 
 Inductive case :=
-| CSchema (s : sig) (cm : ctxmode) (ctx : json) (sc : schema) (p : pparams)
+| CSchema (s : sig) (cm : ctxmode) (xs : list string) (ctx : json) (sc : schema) (p : pparams)
           (js_says : option bool)   (* the jsonschema package's verdict on the bound mapping (None: the arguments did not bind) *)
           (obs : robs)
-| CTyped (s : sig) (cm : ctxmode) (ctx : json) (o : verdicts) (coerce : bool) (p : pparams) (obs : robs).
+| CTyped (s : sig) (cm : ctxmode) (xs : list string) (ctx : json) (o : verdicts) (coerce : bool) (p : pparams) (obs : robs).
+(* xs: the names the validator's exclusion predicate selects ([] = no predicate) *)
 
 Definition render (i : invoke) : robs :=
   match i with InvRan e => ORan (env_json e) | InvInvalid => OInvalid true | InvCallFail => OOther (-32000) end.
@@ -24,22 +25,37 @@ Definition robs_eqb (a b : robs) : bool :=
   | OOther x, OOther y => Z.eqb x y
   | _, _ => false end.
 
+(* excluded parameters: never settable by the client, and the body sees its own default for them *)
+Definition env_slot (n : string) (e : json) : option json :=
+  match e with
+  | JArr l => (fix go (l : list json) : option json :=
+                 match l with
+                 | [] => None
+                 | JArr [JStr k; v] :: r => if String.eqb k n then Some v else go r
+                 | _ :: r => go r end) l
+  | _ => None end.
+Definition excl_ok (xs : list string) (p : pparams) (obs : robs) : bool :=
+  match obs with
+  | ORan e => forallb (fun n => match env_slot n e with Some (JStr "<default>") => true | _ => false end) xs
+              && match p with PKw d => negb (existsb (fun n => has n d) xs) | PPos _ => true end
+  | _ => true end.
+
 Definition check (c : case) : nat :=
   match c with
-  | CSchema s cm ctx sc p js obs =>
-      let bound := validate_bind (excluded_sig s cm) p in
+  | CSchema s cm xs ctx sc p js obs =>
+      let bound := validate_bind (excluded_sig_x s cm xs) p in
       let mine := match bound with Some kw => Some (js_valid sc (JObj kw)) | None => None end in
       (* model vs implementation, and the evaluator vs the jsonschema package *)
-      let mism := negb (robs_eqb (render (invoke_js s cm ctx sc p)) obs) || negb (option_eqb Bool.eqb mine js) in
+      let mism := negb (robs_eqb (render (invoke_js_x s cm xs ctx sc p)) obs) || negb (option_eqb Bool.eqb mine js) in
       (* the property: executed iff binds and conforms (conformance as judged by the jsonschema package), arguments unchanged *)
       let ok := match js, obs with
-                | Some true, ORan e => robs_eqb (render (method_invoke s cm ctx p)) obs
+                | Some true, ORan e => robs_eqb (render (invoke_base_x s cm xs ctx p)) obs
                 | Some false, OInvalid true | None, OInvalid true => true
-                | _, _ => false end in
+                | _, _ => false end && excl_ok xs p obs in
       verdict mism (negb ok) (match obs with ORan _ => true | _ => false end) 0
-  | CTyped s cm ctx o coerce p obs =>
-      let mism := negb (robs_eqb (render (invoke_pyd s cm ctx o coerce p)) obs) in
-      let bound := validate_bind (excluded_sig s cm) p in
+  | CTyped s cm xs ctx o coerce p obs =>
+      let mism := negb (robs_eqb (render (invoke_pyd_x s cm xs ctx o coerce p)) obs) in
+      let bound := validate_bind (excluded_sig_x s cm xs) p in
       let ok := match bound with
                 | None => match obs with OInvalid true => true | _ => false end
                 | Some kw =>
@@ -47,11 +63,11 @@ Definition check (c : case) : nat :=
                     | None, OInvalid true => true
                     | Some kw', ORan e => robs_eqb (render (call_with s cm ctx (if coerce then kw' else kw))) obs
                     | _, _ => false end
-                end in
+                end && excl_ok xs p obs in
       verdict mism (negb ok) (match obs with ORan _ => true | _ => false end) 0
   end.
 Definition run (cs : list case) : list nat := map check cs.
 Definition show (c : case) :=
   match c with
-  | CSchema s cm ctx sc p _ _ => render (invoke_js s cm ctx sc p)
-  | CTyped s cm ctx o coerce p _ => render (invoke_pyd s cm ctx o coerce p) end.
+  | CSchema s cm xs ctx sc p _ _ => render (invoke_js_x s cm xs ctx sc p)
+  | CTyped s cm xs ctx o coerce p _ => render (invoke_pyd_x s cm xs ctx o coerce p) end.
